@@ -628,6 +628,11 @@ func TestDrv_C09(t *testing.T) {
 			}
 			rs[i] = genResult(r, i, max)
 		}
+		if s%6 == 1 { // records as small as they get (a few dozen bytes in every encoding)
+			for i := range rs {
+				rs[i] = vegeta.Result{Seq: uint64(i), Code: uint16(i % 3), Timestamp: time.Unix(0, int64(i+1)).UTC()}
+			}
+		}
 		if s%2 == 0 { // every other stream certainly holds a record beyond the codecs' internal buffers (4, 16, 64 KiB)
 			big := r.Intn(n)
 			rs[big].Body = make([]byte, []int{5000, 13000, 20000, 50000, 70000}[(s/2)%5])
@@ -1070,6 +1075,9 @@ func TestDrv_C13(t *testing.T) {
 			if s%4 == 3 && f%2 == 0 {
 				encs[f] = "json" // (the seam of the line reader concerns JSON files)
 			}
+			if s%5 == 2 && f == 0 {
+				encs[f] = "csv" // (a CSV record with a line break inside a field, ending just behind a multiple of 4 KiB)
+			}
 			for i := 0; i < lens[f]; i++ {
 				res := genResult(r, id, 200)
 				res.Attack = fmt.Sprintf("f%d", f) // (attack, seq) identifies the record
@@ -1092,6 +1100,9 @@ func TestDrv_C13(t *testing.T) {
 				if s%4 == 1 && i == lens[f]/2 && i > 0 { // a record whose encoded line exceeds the decoders' buffers, not first in its file
 					res.Body = make([]byte, 70000)
 					r.Read(res.Body)
+				}
+				if s%5 == 2 && f == 0 && i == 0 {
+					padToCSVRecord(&res, []int{4097, 4196, 8192 + 37, 12288 + 2000}[s/5%4])
 				}
 				files[f] = append(files[f], res)
 				union = append(union, res)
@@ -1417,6 +1428,20 @@ func resultWithJSONLine(r *rand.Rand, id int, n int) vegeta.Result {
 }
 
 // padToJSONLine gives res the body and error text that make its JSON line (newline included) exactly n bytes long.
+// padToCSVRecord gives the result a URL with a line break in it, of such a length that its CSV record (which spans two lines)
+// is n bytes long.
+func padToCSVRecord(res *vegeta.Result, n int) {
+	recLen := func() int {
+		var buf bytes.Buffer
+		must(vegeta.NewCSVEncoder(&buf).Encode(res))
+		return buf.Len()
+	}
+	res.URL = "http://h/first line\nsecond line "
+	for l := recLen(); l < n; l = recLen() {
+		res.URL += strings.Repeat("u", n-l)
+	}
+}
+
 func padToJSONLine(r *rand.Rand, res *vegeta.Result, n int) {
 	res.Headers, res.Error, res.Body = nil, "", nil
 	lineLen := func() int {
